@@ -75,7 +75,6 @@ RULES = {
     "C19.kind": "an operation applied to a parameter value accepts the kind of the DefaultParams default it may hold",
     "C19.handler": "every except clause in the config parser catches an exception its guarded statements can raise per the API table, and no table exception escapes uncaught from a guarded conversion",
     "C19.scope": "no name resolving to a Python builtin is subscripted or used as data",
-    "C19.defaults-all-paths": "a statement that gives an optional key its default (d[k] = d.get(k, default) / setdefault) dominates every return of its function",
     "C19.phase-kinds": "_parse_phase returns a MineralPhase member or raises the configuration error for every kind of TOML value (name, ordinal, member, unknown name, out-of-range ordinal, float, list)",
     "C19.config-table": "parse_config interpreted over every subset of the optional keys of [output], [input] and [parameters] in all three input modes: it parses, "
                         "every optional key takes its documented default, phases and fabric are enumeration members; single-fault invalid configurations raise ConfigError",
@@ -218,14 +217,13 @@ def config(ctx, I):
         handlers(ctx, mod, name, fn, I)
         scope(ctx, mod, name, fn)
     for name, fn in fns.items():
-        defaults_all_paths(ctx, mod, name, fn)
+        pass    # (the AST rule `defaults-all-paths` was removed: the interpreted configuration table decides the defaults on every path)
     phase_kinds(ctx, I)
     config_table(ctx)
     kinds(ctx, mod, fns, I, param_fields)
     output_kept(ctx, mod, fns)
     ctx.floor("C19.handler", 2)
     ctx.floor("C19.scope", 6)
-    ctx.floor("C19.defaults-all-paths", 5)
 
 
 def L(ctx, mod, node):
